@@ -281,11 +281,14 @@ class SeedPolyphase(SubCheck):
     sources = ["whatshap/cli/polyphase.py", "whatshap/vcf.py"]
     stubs = ["PhasedInputReader.read returns one read over all offered variants", "phase_single_individual replaced by a deterministic function of (sample, variants offered) - the clustering/threading heuristics are not applicable (DESIGN C15)", "VcfReader yields a harness-built table, PhasedVcfWriter records what it is given", "set/frozenset -> vf/pysym/nondet.py", "replay: the real `whatshap polyphase` on tests/data/polyploid.multisample.chr22.42M.5k.vcf + two BAMs under 4 PYTHONHASHSEED values"]
     assumptions = ["as seed_compare"]
-    required_cover = ["two samples with different heterozygous sets", "sample set iterated in a solver-chosen order"]
+    required_cover = ["two samples with different heterozygous sets", "sample set iterated in a solver-chosen order", "real phase_single_individual with --use-prephasing: one sample pre-phased, the others not"]
     replay_every = 1000
 
     def shapes(self, tier):
-        return [dict(nsamples=2, nvar=3), dict(nsamples=3, nvar=3)] if tier == "quick" else [dict(nsamples=2, nvar=3), dict(nsamples=3, nvar=3), dict(nsamples=3, nvar=4)]
+        # psi: the REAL phase_single_individual runs (pre-phasing handling, cut positions -> components, super reads); the stand-ins
+        # move one level down (solve_polyphase_instance as a function of its arguments AND of the parameter object it is handed)
+        psi = [dict(nsamples=2, nvar=3, psi=True), dict(nsamples=3, nvar=3, psi=True)]
+        return ([dict(nsamples=2, nvar=3), dict(nsamples=3, nvar=3)] if tier == "quick" else [dict(nsamples=2, nvar=3), dict(nsamples=3, nvar=3), dict(nsamples=3, nvar=4)]) + psi
 
     def bounds(self, tier):
         return "2-3 samples, 3 (thorough: 4) variants with solver-chosen het/hom genotype per sample and variant, one chromosome; every iteration over a set of sample names in a solver-chosen order"
@@ -308,7 +311,7 @@ class SeedPolyphase(SubCheck):
         if len({tuple(h) for h in het.values()}) > 1:
             e.cover("two samples with different heterozygous sets")
         if impl == "real":
-            return self.run_real(e)
+            return self.run_real_psi(e) if shape.get("psi") else self.run_real(e)
         core = self.core_model
         if not hasattr(self, "_world"):
             self._world = self._load_world(core)
@@ -332,14 +335,22 @@ class SeedPolyphase(SubCheck):
             shadows=nondet.shadows(),
             transformer=nondet.transformer,
         )
-        return w.load("whatshap.cli.polyphase"), w.load("whatshap.vcf")
+        mod = w.load("whatshap.cli.polyphase")
+        import logging
+
+        mod.logger.setLevel(logging.ERROR)
+        self._orig_psi = mod.phase_single_individual
+        return mod, w.load("whatshap.vcf")
 
     def _run_sym(self, e, shape, names, nvar, het, core, mod, vcf):
         def run(hook):
             written = []
             vt = vcf.VariantTable("chr1", names)
+            psi = bool(shape.get("psi"))
             for v in range(nvar):
-                vt.add_variant(vcf.BiallelicVcfVariant(100 * (v + 1), "A", "C"), [core.Genotype([0, 1] if het[s][v] else [0, 0]) for s in names], [None] * len(names), [None] * len(names), [None] * len(names))
+                # psi: the first sample comes pre-phased (one block over its heterozygous variants), the others do not
+                phases = [vcf.VariantCallPhase(block_id=100, phase=(0, 1), quality=None) if (psi and s == names[0] and het[s][v]) else None for s in names]
+                vt.add_variant(vcf.BiallelicVcfVariant(100 * (v + 1), "A", "C"), [core.Genotype([0, 1] if het[s][v] else [0, 0]) for s in names], phases, [None] * len(names), [None] * len(names))
 
             class Reader:
                 def __init__(s, *a, **k):
@@ -365,7 +376,8 @@ class SeedPolyphase(SubCheck):
                     return None
 
                 def write(s, chromosome, superreads, components, haploid=None):
-                    written.append((chromosome, sorted((k, v) for k, v in superreads.items()), sorted((k, sorted(v.items())) for k, v in components.items())))
+                    plain = lambda rs: rs if isinstance(rs, tuple) else [[(v.position, v.allele) for v in r] for r in rs]
+                    written.append((chromosome, sorted((k, plain(v)) for k, v in superreads.items()), sorted((k, sorted(v.items())) for k, v in components.items())))
 
             class Input:
                 has_vcfs = False
@@ -391,10 +403,29 @@ class SeedPolyphase(SubCheck):
                 pos = [v.position for v in table.variants]
                 return {p: pos[0] for p in pos}, {}, tuple(pos)
 
-            mod.VcfReader, mod.PhasedVcfWriter, mod.PhasedInputReader, mod.phase_single_individual = Reader, Writer, Input, phase_single
+            mod.VcfReader, mod.PhasedVcfWriter, mod.PhasedInputReader = Reader, Writer, Input
+            kw = {}
+            if psi:
+                e.cover("real phase_single_individual with --use-prephasing: one sample pre-phased, the others not")
+                mod.phase_single_individual = self._orig_psi
+                mod.create_genotype_list = lambda table, sample: [dict((a, g.as_vector().count(a)) for a in g.as_vector()) for g in table.genotypes_of(sample)]
+                # contract of extract_partial_phasing: None iff the sample has no phased block of >= 2 variants
+                mod.extract_partial_phasing = lambda table, sample, ploidy: ("prephasing of", sample) if sum(1 for ph in table.phases_of(sample) if ph is not None) >= 2 else None
+                mod.AlleleMatrix = lambda readset: ("allele matrix", tuple(sorted(readset.get_positions())))
+
+                def solve(am, genotype_list, param, timers, prephasing=None, quiet=False):
+                    n = len(am[1])
+                    k = (1 if prephasing is not None else 0) + (2 if param.use_prephasing else 0) + param.block_cut_sensitivity
+                    return types.SimpleNamespace(breakpoints=[], haplotypes=[[(i + j + k) % 2 for j in range(n)] for i in range(param.ploidy)], clustering=[], threads=[])
+
+                mod.solve_polyphase_instance = solve
+                mod.compute_cut_positions = lambda breakpoints, ploidy, sens: ([0], [[0] for _ in range(ploidy)])
+                kw = dict(use_prephasing=True, block_cut_sensitivity=0)
+            else:
+                mod.phase_single_individual = phase_single
             nondet.ORDER_HOOK = hook
             try:
-                mod.run_polyphase(["x.bam"], "in.vcf", 2, output=io.StringIO(), write_command_line_header=False)
+                mod.run_polyphase(["x.bam"], "in.vcf", 2, output=io.StringIO(), write_command_line_header=False, **kw)
             finally:
                 nondet.ORDER_HOOK = None
             return written
@@ -410,6 +441,41 @@ class SeedPolyphase(SubCheck):
         if cnt[0]:
             e.cover("sample set iterated in a solver-chosen order")
         e.check(base == other, "what polyphase writes depends on the iteration order of the sample set (hash seed)", lambda: dict(canonical=str(base)[:500], other=str(other)[:500]))
+
+    def run_real_psi(self, e):
+        """the real CLI with --use-prephasing -B 0 on the repository's pre-phased tetraploid instance plus a second sample column
+        that carries the same genotypes without phasing, under 6 hash seeds (cached per process)"""
+        if not hasattr(self, "_psi_real"):
+            data = os.path.join(REPO, "tests", "data")
+            src, bam = os.path.join(data, "polyploid.cuts.vcf"), os.path.join(data, "polyploid.cuts.bam")
+            outs = []
+            if os.path.exists(src) and os.path.exists(bam):
+                tmp = tempfile.mkdtemp(prefix="c16psi-", dir="/var/tmp")
+                try:
+                    vcf_in = os.path.join(tmp, "two-samples.vcf")
+                    with open(src) as f, open(vcf_in, "w") as o:
+                        for line in f:
+                            line = line.rstrip("\n")
+                            if line.startswith("##"):
+                                o.write(line + "\n")
+                            elif line.startswith("#CHROM"):
+                                o.write(line + "\tUnphased\n")
+                            else:
+                                fl = line.split("\t")
+                                gt = fl[9].split(":")[0].replace("|", "/")
+                                o.write("\t".join(fl + [":".join([gt] + ["."] * (len(fl[8].split(":")) - 1))]) + "\n")
+                    sample = [l.split("\t")[9].strip() for l in open(vcf_in) if l.startswith("#CHROM")][0]
+                    for seed in ("0", "1", "2", "3", "4", "5"):
+                        out = os.path.join(tmp, "o%s.vcf" % seed)
+                        env = dict(os.environ, PYTHONHASHSEED=seed, PYTHONPATH=REPO + os.pathsep + os.environ.get("PYTHONPATH", ""))
+                        r = subprocess.run([sys.executable, "-m", "whatshap", "polyphase", "--ploidy", "4", "--ignore-read-groups", "--sample", sample, "--sample", "Unphased", "--use-prephasing", "-B", "0", "-o", out, vcf_in, bam],
+                                           stdout=subprocess.PIPE, stderr=subprocess.PIPE, text=True, env=env, cwd=tmp)
+                        outs.append("".join(l for l in open(out) if not l.startswith("##commandline")) if os.path.exists(out) else "rc=%d %s" % (r.returncode, r.stderr[-200:]))
+                finally:
+                    shutil.rmtree(tmp, ignore_errors=True)
+            self._psi_real = outs
+        for o in self._psi_real[1:]:
+            e.check(o == self._psi_real[0], "what polyphase writes depends on the iteration order of the sample set (hash seed)", None)
 
     def run_real(self, e):
         data = os.path.join(REPO, "tests", "data")
